@@ -66,6 +66,8 @@ func doDump(p *Prog, what string) {
 		fmt.Printf("ok=%d bad=%d\n", nok, nbad)
 	case strings.HasPrefix(what, "paths:"):
 		dumpPaths(p, strings.TrimPrefix(what, "paths:"))
+	case what == "decode":
+		dumpDecode(p)
 	case what == "externals":
 		dumpExternals(p)
 	case what == "funcs":
@@ -159,5 +161,25 @@ func dumpPaths(p *Prog, name string) {
 	f := p.Fn(name)
 	for _, lp := range explorePaths(p, f) {
 		fmt.Println(lp.outcome, lp.decisions, lp.effects)
+	}
+}
+
+func dumpDecode(p *Prog) {
+	kt := buildKindTable(p, newReport("x", "quick"))
+	for _, row := range kt.rows {
+		for _, n := range []bool{false, true} {
+			outs, _ := kt.unmarshalOutcomes(row.Val, n)
+			for _, o := range outs {
+				if o.ret == nil || len(o.results) != 2 || o.results[1].k != aNil {
+					continue
+				}
+				v := o.results[0]
+				s := v.String()
+				if v.k == aIface && v.dyn != nil && v.dyn.pt != nil {
+					s += " -> " + v.dyn.pt.String()
+				}
+				fmt.Printf("%s nullable=%v: %s   calls=%v notes=%v\n", row.Name, n, s, o.calls, o.notes)
+			}
+		}
 	}
 }
